@@ -150,7 +150,134 @@ def oracle(st, models, info):
 oracle.needs_pre = True
 
 
+# ---------------------------------------------------------------------------------------------- real runs
+def _exact_model(quad, xpt):
+    """(c, g, H) of a Quadratic given as floats, as exact rationals (H = explicit + sum implicit_k y_k y_k^T)."""
+    const, grad, ih, eh = quad
+    n, npt = xpt.shape
+    Y = [[Fr(float(v)) for v in xpt[:, k]] for k in range(npt)]
+    H = [[Fr(float(eh[i, j])) + sum(Fr(float(ih[k])) * Y[k][i] * Y[k][j] for k in range(npt)) for j in range(n)]
+         for i in range(n)]
+    return (Fr(const), [Fr(float(v)) for v in grad], H)
+
+
+def _ref_of(snap):
+    n, npt = snap["xpt"].shape
+    r = e2models.Ref()
+    r.n = n
+    r.xb = [Fr(float(v)) for v in snap["x_base"]]
+    r.Y = [[Fr(float(v)) for v in snap["xpt"][:, k]] for k in range(npt)]
+    r.vals = [[Fr(float(v)) for v in col] for col in snap["vals"]]
+    r.models = [_exact_model(q, snap["xpt"]) for q in snap["quads"]]
+    r.err = [(0.0, 0.0, 0.0)] * len(snap["quads"])
+    return r
+
+
+def _repr_mag(quad, xpt, R):
+    """Magnitude of the terms a stored Quadratic is made of (they may cancel: a barrier value that has left the
+    set leaves implicit weights of order 1e42 behind): (|c| + R|g| + R^2 h, |g| + R h, h) with
+    h = sum_k |w_k| |y_k|^2 + sum |explicit|."""
+    const, grad, ih, eh = quad
+    h = float(np.sum(np.abs(ih) * np.sum(xpt ** 2, axis=0)) + np.sum(np.abs(eh)))
+    g = float(np.sum(np.abs(grad)))
+    return (abs(const) + R * g + R * R * h, g + R * h, h)
+
+
+def e1_roots(tier):
+    """Real runs (cross-feature cases, n <= 2; 3 in thorough): the models after the initial sampling and after a
+    reset must be the least-Frobenius-norm interpolants of the stored values; after each of the first updates the
+    new model must be the old one (as stored, taken exactly) plus the least-norm interpolant of the residuals."""
+    from .. import cover
+    out = []
+    for c in cover.roots_for(tier, monitors=["lfn"]):
+        if tier == "quick" and c["tag"]["part"] != "cross-feature":
+            continue
+        if c["n"] > (2 if tier == "quick" else 3):
+            continue
+        c["explore"] = 0
+        c["lfn_cap"] = 6 if c["n"] <= 2 else 3
+        out.append(c)
+    return out
+
+
+def _finite(snap):
+    return all(np.all(np.isfinite(a)) for a in [snap["xpt"], snap["x_base"]] + list(snap["vals"])) and \
+        all(np.isfinite(q[0]) and np.all(np.isfinite(q[1])) and np.all(np.isfinite(q[2])) and np.all(np.isfinite(q[3]))
+            for q in snap["quads"])
+
+
+def e1_oracle(rec, table=None):
+    viol = []
+    for i, ent in enumerate(rec.notes.get("lfn", [])):
+        post = ent["post"]
+        if not _finite(post) or (ent["pre"] is not None and not _finite(ent["pre"])):
+            continue
+        n, npt = post["xpt"].shape
+        if ent.get("ill") or e2models.truncates(post["xpt"]):
+            continue
+        kappa = e2models.kappa_of(post["xpt"])
+        if not np.isfinite(kappa) or kappa > KAPPA_CAP:
+            continue
+        # distance from the base within which the models are evaluated in this run
+        R = 4.0 * max(float(np.max(np.linalg.norm(post["xpt"], axis=0))), 1.0)
+        if ent["pre"] is not None:
+            R = max(R, 4.0 * float(np.max(np.linalg.norm(ent["pre"]["xpt"], axis=0))))
+        if ent["op"] == "shift_x_base":
+            R = max(R, 4.0 * float(np.linalg.norm(post["x_base"] - ent["pre"]["x_base"])))
+            ref = _ref_of(ent["pre"])
+            new = e2models.ref_shift(ref, [Fr(float(v)) for v in post["x_base"]])
+            new.err = [(0.0, 0.0, 0.0)] * len(new.models)  # the representation terms below are the whole budget
+        elif ent["op"] in ("init", "reset_models"):
+            xb = [Fr(float(v)) for v in post["x_base"]]
+            Y = [[Fr(float(v)) for v in post["xpt"][:, k]] for k in range(npt)]
+            vals = [[Fr(float(v)) for v in col] for col in post["vals"]]
+            new = e2models.ref_build(n, xb, Y, vals, kappa)
+        else:
+            ref = _ref_of(ent["pre"])
+            k = ent["k"]
+            y_abs = [a + Fr(float(b)) for a, b in zip(ref.xb, post["xpt"][:, k])]
+            newvals = [Fr(float(col[k])) for col in post["vals"]]
+            extra = [max(e2models.model_mag(m, R), _repr_mag(q, ent["pre"]["xpt"], R)[0])
+                     for m, q in zip(ref.models, ent["pre"]["quads"])]
+            new = e2models.ref_update(ref, k, y_abs, newvals, kappa, R=R, extra_mag=extra)
+        if new is None:
+            continue
+        for which, quad in enumerate(post["quads"]):
+            got = _exact_model(quad, post["xpt"])
+            ex = new.models[which]
+            ec, eg, eh = new.err[which]
+            # rounding of the stored representation itself (before and after the operation)
+            mc_, mg_, mh_ = _repr_mag(quad, post["xpt"], R)
+            if ent["pre"] is not None:
+                pc_, pg_, ph_ = _repr_mag(ent["pre"]["quads"][which], ent["pre"]["xpt"], R)
+                mc_, mg_, mh_ = max(mc_, pc_), max(mg_, pg_), max(mh_, ph_)
+            mc_, mg_, mh_ = 100 * EPS * mc_, 100 * EPS * mg_, 100 * EPS * mh_
+            name = "objective" if which == 0 else f"constraint model {which}"
+            dH = max(abs(float(got[2][a][b] - ex[2][a][b])) for a in range(n) for b in range(n))
+            dg = max(abs(float(a - b)) for a, b in zip(got[1], ex[1]))
+            dc = abs(float(got[0] - ex[0]))
+            mag = mh_
+            if not (dH <= eh + mh_ and dg <= eg + mg_ and dc <= ec + mc_):
+                viol.append({"key": f"run:not-lfn:{ent['op']}",
+                             "what": f"real run: after {ent['op']} #{i} the {name} differs from the exact "
+                                     f"least-Frobenius-norm {'interpolant' if ent['pre'] is None else 'update'}: "
+                                     f"|dH|={dH:.3g} (tol {eh + mh_:.3g}), |dg|={dg:.3g} (tol {eg + mg_:.3g}), "
+                                     f"|dc|={dc:.3g} (tol {ec + mc_:.3g}), kappa {kappa:.3g}"})
+                return viol
+        rec.notes["lfn_judged"] = rec.notes.get("lfn_judged", 0) + 1
+    return viol
+
+
+def _e1_stats(rec, table, stats):
+    stats["real_run_models_judged"] = stats.get("real_run_models_judged", 0) + rec.notes.get("lfn_judged", 0)
+    for ent in rec.notes.get("lfn", []):
+        stats["real_run_op_" + ent["op"]] = stats.get("real_run_op_" + ent["op"], 0) + 1
+
+
 def run_case(case):
+    if "hist" not in case:
+        from .. import e1prop
+        return e1prop.run_case_generic(case, e1_oracle, extra_stats=_e1_stats)
     v = e2models.replay_history(case["n"], case["npt"], case["hist"], oracle)
     for x in v:
         x["case"] = case
@@ -183,6 +310,17 @@ def execute(tier, seed, limit=0):
         herr.append("fewer than 100 states were judged against the exact recursion with a tolerance <= 1e-6")
     if not res["flags"].get("shift"):
         herr.append("no shift operation explored")
+    # real runs
+    from .. import alpha
+    rts = alpha.permute(e1_roots(tier), seed)
+    if limit:
+        rts = rts[:limit]
+    for out in common.run_roots(__import__("mc.props.c13", fromlist=["x"]), rts):
+        agg.add(out)
+    for k in ("real_run_models_judged", "real_run_op_init", "real_run_op_update_interpolation",
+              "real_run_op_shift_x_base"):
+        if not agg.stats.get(k):
+            herr.append(f"non-vacuity counter {k} is zero")
     cov = {
         "states": int(res["states"]), "transitions": int(res["transitions"]),
         "traces_validated_against_impl": int(res["conformed"]),
@@ -195,6 +333,15 @@ def execute(tier, seed, limit=0):
         "explanation": "same breadth-first search as C12; every new state's three models are compared with the exact "
                        "rational recursion (value, gradient, Hessian at probe points), with each other's views and, "
                        "for shifts, with the model before the shift",
-        "evaluations": int(res["transitions"]), "distinct_nontrivial": int(res["flags"].get("judged_against_exact", 0)),
+        "real_runs": {"runs": int(agg.stats.get("runs", 0)),
+                      "operations_judged": int(agg.stats.get("real_run_models_judged", 0)),
+                      "initial_models": int(agg.stats.get("real_run_op_init", 0)),
+                      "updates": int(agg.stats.get("real_run_op_update_interpolation", 0)),
+                      "shifts": int(agg.stats.get("real_run_op_shift_x_base", 0)),
+                      "resets": int(agg.stats.get("real_run_op_reset_models", 0)),
+                      "rule": "cross-feature cases (mc/cover.py), n <= 2 (3 in thorough): the first 6 (3) model "
+                              "operations of each run; one exact step from the stored floating-point state"},
+        "evaluations": int(res["transitions"] + agg.stats.get("runs", 0)),
+        "distinct_nontrivial": int(res["flags"].get("judged_against_exact", 0)),
     }
-    return agg, cov, herr, []
+    return agg, cov, herr, rts
